@@ -62,6 +62,8 @@ type scheduler struct {
 	events  chan event
 	current int
 	sites   map[string]int
+	accept  func(site string) bool // the yield points this kind of op line schedules at; any other point is passed through
+	quiet   bool                   // set by the running thread around code whose yield points are not part of the op
 }
 
 // active is the scheduler of the op line being executed; exactly one controlled goroutine runs at any time (the one
@@ -70,12 +72,89 @@ var active *scheduler
 
 func yield(site string) {
 	s := active
-	if s == nil {
+	if s == nil || s.quiet || !s.accept(site) {
+		// e.g. the type-cache points reached from inside SetEntry's error path (which prints types while it holds the
+		// loader lock): parking there would park a goroutine inside a critical section
 		return
 	}
 	t := s.current
 	s.events <- event{site: site}
 	<-s.release[t]
+}
+
+// runThreads runs n goroutines under the schedule; thread t executes steps(t) steps, step i by exec(t, i) (a panic
+// escaping exec is the answer "fault").  Returns the answers per thread, the yield sites hit and whether some thread was
+// preempted inside a step.
+func runThreads(n int, accept func(site string) bool, steps func(t int) int, exec func(t, i int) string, schedule []int) (outs [][]string, sites map[string]int, preempted bool) {
+	s := &scheduler{events: make(chan event), sites: map[string]int{}, accept: accept}
+	active = s
+	defer func() { active = nil }()
+	const (
+		parked = iota
+		finished
+	)
+	state := make([]int, n)
+	outs = make([][]string, n)
+	wait := func(t int) {
+		ev := <-s.events
+		if ev.done {
+			state[t] = finished
+		} else {
+			state[t] = parked
+			s.sites[ev.site]++
+		}
+	}
+	// start the threads one at a time; each parks at its first "op" yield (or finishes at once)
+	for t := 0; t < n; t++ {
+		s.release = append(s.release, make(chan struct{}))
+		s.current = t
+		go func(t int) {
+			defer func() { s.events <- event{done: true} }()
+			for i, m := 0, steps(t); i < m; i++ {
+				yield("op")
+				outs[t] = append(outs[t], func() (o string) {
+					defer func() {
+						if e := recover(); e != nil {
+							o = "fault"
+						}
+					}()
+					return exec(t, i)
+				}())
+			}
+		}(t)
+		wait(t)
+	}
+	step := func(t int) {
+		s.current = t
+		s.release[t] <- struct{}{}
+		wait(t)
+	}
+	last := -1
+	for _, t := range schedule {
+		if t >= n || state[t] == finished {
+			continue
+		}
+		if last >= 0 && last != t && state[last] == parked {
+			preempted = true
+		}
+		step(t)
+		last = t
+	}
+	for t := 0; t < n; t++ {
+		for state[t] == parked {
+			step(t)
+		}
+	}
+	return outs, s.sites, preempted
+}
+
+// quietly runs f on the calling (controlled) goroutine with every yield point passed through
+func quietly(f func()) {
+	if s := active; s != nil {
+		s.quiet = true
+		defer func() { s.quiet = false }()
+	}
+	f()
 }
 
 type thread struct {
@@ -89,9 +168,6 @@ func exec(c px.Context, op string, args []sx.Sexp) (res core.Result) {
 		// answered by the model side from the regenerated lock-set table: `none`, or the racing pair of access sites
 		return core.Result{Out: "none", Pred: "ok"}
 	}
-	if op != "sched" {
-		return core.Result{Out: "bad-op", Pred: "n/a"}
-	}
 	defer func() {
 		if e := recover(); e != nil {
 			if _, ok := e.(c12.Bad); ok {
@@ -101,6 +177,12 @@ func exec(c px.Context, op string, args []sx.Sexp) (res core.Result) {
 			panic(e)
 		}
 	}()
+	if op == "cache" {
+		return execCache(args)
+	}
+	if op != "sched" {
+		return core.Result{Out: "bad-op", Pred: "n/a"}
+	}
 	if len(args) != 3 || args[0].Tag() != "tree" || args[1].Tag() != "threads" || args[2].Tag() != "sched" {
 		return core.Result{Out: "bad-op", Pred: "n/a"}
 	}
@@ -151,68 +233,15 @@ func run(parent []int, forked []bool, ths []*thread, schedule []int) core.Result
 	}
 	sort.Strings(sortedKeys)
 
-	s := &scheduler{events: make(chan event), sites: map[string]int{}}
 	mutated := ""
-	active = s
-	defer func() { active = nil }()
-
-	// start the threads one at a time; each parks at its first "op" yield (or finishes at once)
-	const (
-		parked = iota
-		finished
-	)
-	state := make([]int, len(ths))
-	wait := func(t int) {
-		ev := <-s.events
-		if ev.done {
-			state[t] = finished
-		} else {
-			state[t] = parked
-			s.sites[ev.site]++
-		}
+	loaderSites := func(site string) bool {
+		return site == "op" || site == "get.hold" || site == "parented.loadentry" || site == "load.miss-window" || site == "parented.discover"
 	}
+	outs, sites, preempted := runThreads(len(ths), loaderSites, func(t int) int { return len(ths[t].steps) },
+		func(t, i int) string { return execStep(w, ths[t], ths[t].steps[i], keys, &mutated) }, schedule)
 	for t, th := range ths {
-		s.release = append(s.release, make(chan struct{}))
-		s.current = t
-		go func(t int, th *thread) {
-			defer func() { s.events <- event{done: true} }()
-			for _, st := range th.steps {
-				yield("op")
-				th.outs = append(th.outs, func() (o string) {
-					defer func() {
-						if e := recover(); e != nil {
-							o = "fault"
-						}
-					}()
-					return execStep(w, th, st, keys, &mutated)
-				}())
-			}
-		}(t, th)
-		wait(t)
+		th.outs = outs[t]
 	}
-	preempted := false
-	step := func(t int) {
-		s.current = t
-		s.release[t] <- struct{}{}
-		wait(t)
-	}
-	last := -1
-	for _, t := range schedule {
-		if t >= len(ths) || state[t] == finished {
-			continue
-		}
-		if last >= 0 && last != t && state[last] == parked {
-			preempted = true
-		}
-		step(t)
-		last = t
-	}
-	for t := range ths {
-		for state[t] == parked {
-			step(t)
-		}
-	}
-	active = nil
 
 	// ---- output
 	var sb strings.Builder
@@ -264,7 +293,7 @@ func run(parent []int, forked []bool, ths []*thread, schedule []int) core.Result
 		}
 	}
 	res.NonTrivial = accepted && ran >= 2 && preempted
-	for site, n := range s.sites {
+	for site, n := range sites {
 		if n > 0 {
 			res.Tags = append(res.Tags, "site:"+site)
 		}
@@ -815,6 +844,9 @@ func gen(g *core.G) {
 		}
 		g.Emit("sched (tree " + strings.Join(tree, " ") + ") (threads " + strings.Join(ths, " ") + ") " + schedStr(s))
 	}
+
+	// the lazily built type caches of a shared value
+	genCache(g)
 
 	// 3. malformed
 	for _, l := range []string{
